@@ -86,7 +86,21 @@ def tot(c):
     return s
 
 
-FUNCS = {"add2": add2, "scale": scale, "hyp": hyp, "sq": sq, "tot": tot,
+def kwsum(**kw):
+    """order-sensitive in its keyword arguments (Python passes them in the order of the call)"""
+    return sum((i + 1) * v for i, v in enumerate(kw.values()))
+
+
+def sel(x, mode="pos"):
+    """takes a STRING constant, positionally or by keyword"""
+    if mode == "neg":
+        return -x
+    if mode == "dbl":
+        return x * 2
+    return x
+
+
+FUNCS = {"add2": add2, "scale": scale, "hyp": hyp, "sq": sq, "tot": tot, "kwsum": kwsum, "sel": sel,
          "sin": math.sin, "cos": math.cos, "atan": math.atan}
 
 
